@@ -403,6 +403,11 @@ class Contract(object):
                     ens = self.ensures(fc, Args(args), fs.retval, Ctx(interp, old_st, fr))
                 except Raised as e:
                     ens = {'contract_evaluation(%s)' % e.exc: False}
+                except (KeyError, AttributeError, IndexError, TypeError, ValueError) as e:
+                    # the postcondition can no longer make sense of the final state (a field / event it inspects has
+                    # another shape): contract out of date -> undecided, never a crash and never a violation
+                    from .sym import Stale
+                    ens = {'contract_evaluation': Stale('the postcondition of %s cannot be evaluated on this code (%s: %s)' % (sn, type(e).__name__, e))}
                 for k, f in ens.items():
                     if k in self.derived:
                         continue
